@@ -23,9 +23,10 @@ RULE = ('cases = generated programs over one live Data.fs: commits, packs, a tra
         'size or (uncompressed) content, quick verify for sizes; evaluations = recover/verify operations checked; non-trivial '
         '= >= 2 backups of which one incremental, with a pack or an in-progress transaction between them, then a recover at a '
         'date before the last backup; distinct by program hash')
-ASSUMPTIONS = ['repozo is driven through do_backup/do_recover/do_verify with an options object and options.test_now (its own test hook)',
+ASSUMPTIONS = ['repozo is driven through do_backup/do_recover/do_verify with an options object; the time comes from options.test_now (its own test '
+               'hook) or, in half of the cases, from a clock bound as repozo.time that advances one second with every reading',
                'a flipped byte in a gzip file that leaves the decompressed stream identical is not a content change']
-BUDGET = {'quick': {'examples': 1500, 'workers': 8},
+BUDGET = {'quick': {'examples': 4000, 'workers': 8},
           'thorough': {'examples': 6000, 'workers': 16}}
 
 
@@ -67,6 +68,8 @@ def strategy(tier):
         'ops': st.one_of(st.lists(op, min_size=4, max_size=n), phased()),
         'damage': st.tuples(st.sampled_from(['delete', 'truncate', 'flip', 'none']), st.integers(0, 5), st.integers(0, 100000),
                             st.booleans()).map(list),
+        # repozo reads the (harness) clock itself and every reading is a second later, instead of its test_now hook
+        'ticking': st.booleans(),
     })
 
 
@@ -179,12 +182,39 @@ def execute(case):
                     fs.tpc_abort(inflight[0])
                     inflight[0] = None
             elif k == 'backup':
-                tnow = now()
-                opts = Options(mode=repozo.BACKUP, file=path, repository=repo, full=op[1], quick=op[2], gzip=op[3],
-                               killold=op[4], test_now=tnow)
                 before = set(repo_files())
-                with contextlib.redirect_stdout(sink), contextlib.redirect_stderr(sink):
-                    repozo.do_backup(opts)
+                if case.get('ticking'):
+                    # no test hook: repozo reads the clock itself, and the clock moves on by one second with
+                    # every reading (a backup of a file of realistic size takes longer than that)
+                    import time as real_time
+                    first = []
+
+                    class Ticking:
+                        def gmtime(self_):
+                            t = now()
+                            first.append(t)
+                            return t + (0, 0, 0)
+
+                        def __getattr__(self_, name):
+                            return getattr(real_time, name)
+                    opts = Options(mode=repozo.BACKUP, file=path, repository=repo, full=op[1], quick=op[2], gzip=op[3],
+                                   killold=op[4])
+                    repozo.time = Ticking()
+                    try:
+                        with contextlib.redirect_stdout(sink), contextlib.redirect_stderr(sink):
+                            repozo.do_backup(opts)
+                    finally:
+                        repozo.time = real_time
+                    # the time of the backup is the one in the names of the files it wrote
+                    names = sorted(set(repo_files()) - before)
+                    tnow = tuple(int(x) for x in names[0].split('.')[0].split('-')[:6]) if names else (first[0] if first else now())
+                    labels.add('clock-ticks-during-backup')
+                else:
+                    tnow = now()
+                    opts = Options(mode=repozo.BACKUP, file=path, repository=repo, full=op[1], quick=op[2], gzip=op[3],
+                                   killold=op[4], test_now=tnow)
+                    with contextlib.redirect_stdout(sink), contextlib.redirect_stderr(sink):
+                        repozo.do_backup(opts)
                 new = set(repo_files()) - before
                 with open(path, 'rb') as f:
                     snap = f.read(committed_end[0])
